@@ -103,3 +103,23 @@ CHECKS["C05"] = dict(
     probes=["frame_too_long_for_buffer", "one_byte_too_long", "cap_2", "accidental_crc_match", "crc_completing_byte"],
     assumptions=["capacity >= 2", "receiver restart = init()/setbuf on a zeroed legacy struct"],
 )
+
+CHECKS["C03"] = dict(
+    engine="E6-hist",
+    level="exploration",
+    mode="asan",
+    harness=["harness/C03_rings.cpp"],
+    igris=[],
+    runs=dict(quick=60000, thorough=2000000),
+    design_ref="DESIGN.md 4.6, 5 (C03)",
+    technique="deterministic simulation of producer/consumer/DMA tasks (with stalls) interleaved on one ring, refinement against a reference queue after every step, simulated memory (SimAlloc) + ASan",
+    level_text="seeded histories of producer, consumer and DMA-style tasks over rings of every size 2..17 (67 thorough), all byte values with 0xFF/0x00 weighted; "
+               "after every step the real ring is compared with a std::deque reference (content, counts, full/empty, index range, relative accessors). Sampling, not proof",
+    level_note="sequential refinement against a reference model at operation granularity (the rings promise no finer atomicity); trusted: the reference queue and "
+               "modular arithmetic in the harness; push on a full typed ring / pop on an empty one are treated as caller misuse and not generated",
+    rule="one run = one seeded op history on one structure (C ring API, igris::ring<char>, igris::ring<int>, cyclic_buffer+ring_counter) with phases in which only "
+         "one side runs. non-trivial = the ring wrapped and was full (C ring: and empty again after carrying data); distinct = distinct hash of the op/result trace",
+    simtime_units="elements moved through the ring",
+    probes=["wrapped", "full_reject", "empty_reject", "byte_0xFF_read", "bulk_move_across_wrap", "negative_fixup", "resize", "get_last_across_wrap"],
+    assumptions=["single caller at a time (no concurrent producer/consumer inside one ring operation)", "cyclic_buffer::operator[] index in [0,size)"],
+)
